@@ -625,6 +625,20 @@ func (p *Pipe) FailReadOnce() {
 	p.cond.Broadcast()
 }
 
+// LoseFromHere: the connection breaks now - nothing of what the device has produced and not yet delivered, or produces from
+// now on, arrives; the next Read reports the loss. For use INSIDE a Reactor (the pipe's lock is held there).
+func (p *Pipe) LoseFromHere(kind string) {
+	p.LoseKind = kind
+	p.LoseAt = p.delivered - p.mark
+
+	if p.LoseAt < 0 {
+		p.LoseAt = 0
+		p.mark = p.delivered
+	}
+
+	p.cond.Broadcast()
+}
+
 // SetLoss drops the connection after k bytes past the mark.
 func (p *Pipe) SetLoss(kind string, k int) {
 	p.mu.Lock()
